@@ -186,7 +186,7 @@ def history(draw, variant):
             step["vals"] = draw(S.value_column(n, dtypes=dt, regime="exact"))
             step["vc"] = draw(st.sampled_from(["np", "np_view", "series", "series_nullable", "pd_arrow", "pa", "pl"]))
             mk = draw(st.sampled_from(o.masks))
-            step["mask"] = None if mk == "none" else draw(S.mask_spec(n, kinds=(mk,), negative_pos=o.kind == "red"))
+            step["mask"] = None if mk == "none" else draw(S.mask_spec(n, kinds=(mk,), negative_pos=o.kind == "red", steps=layout == "contiguous"))
             step["mc"] = draw(st.sampled_from(["np", "series"]))
             step["kw"] = o.kw(draw, n) if o.kw else {}
         elif op == "subset_ratio":
